@@ -87,7 +87,15 @@ pub fn log_uniform(rng: &mut Rng) -> i128 {
     }
 }
 
-/// Parser: tokens in any order with unknown tokens interleaved must yield the fields written.
+/// movestogo values written in full: around every width an implementation might narrow to
+const MTG_TEXT: &[&str] = &[
+    "255", "256", "257", "65535", "65536", "65537", "2147483647", "2147483648", "2147483649", "4294967295", "4294967296", "4294967297", "4294967298", "4294967326", "8589934593", "1099511627777",
+    "9223372036854775807", "9223372036854775809", "18446744073709551615", "18446744073709551616", "18446744073709551617", "18446744073709551646", "170141183460469231731687303715884105727",
+    "170141183460469231731687303715884105729", "340282366920938463463374607431768211457", "99999999999999999999999999999999999999999999",
+];
+
+/// Parser: tokens in any order with unknown tokens interleaved must yield the fields written,
+/// and the plan computed from the parsed record must respect the bound of the numbers *written*.
 pub fn check_parse(rng: &mut Rng, acc: &mut Acc) {
     acc.evaluations += 1;
     let mut fields: Vec<(&str, i128)> = Vec::new();
@@ -95,14 +103,39 @@ pub fn check_parse(rng: &mut Rng, acc: &mut Acc) {
     rng.shuffle(&mut names);
     let keep = rng.range(0, 5) as usize;
     let mut line = vec!["go".to_string()];
+    let mut mtg_written: Option<f64> = None;
+    let mut mtg_exact: Option<u32> = None;
     for name in names.iter().take(keep) {
-        let v: i128 = if *name == "movestogo" { rng.range(1, 200) as i128 } else if rng.chance(1, 4) { *rng.pick(EDGE) } else { log_uniform(rng) };
+        let mut text = None;
+        let v: i128 = if *name == "movestogo" {
+            if rng.chance(1, 3) {
+                let t = *rng.pick(MTG_TEXT);
+                text = Some(t.to_string());
+                mtg_written = t.parse::<f64>().ok();
+                mtg_exact = t.parse::<u32>().ok();
+                0
+            } else {
+                let v = rng.range(1, 200) as i128;
+                mtg_written = Some(v as f64);
+                mtg_exact = Some(v as u32);
+                v
+            }
+        } else if rng.chance(1, 4) {
+            *rng.pick(EDGE)
+        } else if rng.chance(1, 3) {
+            // ordinary clocks: the share bound below needs clocks a game really has
+            rng.range(101, 4_000_000) as i128
+        } else {
+            log_uniform(rng)
+        };
         if rng.chance(1, 4) {
             line.push(rng.pick(&["infinite", "ponder", "searchmoves", "e2e4", "foo", "depth", "nodes", "mate", "movetime"]).to_string());
         }
         line.push(name.to_string());
-        line.push(v.to_string());
-        fields.push((name, v));
+        line.push(text.unwrap_or_else(|| v.to_string()));
+        if *name != "movestogo" {
+            fields.push((name, v));
+        }
     }
     if rng.chance(1, 3) {
         line.push(rng.pick(&["infinite", "ponder", "bar", "wtime"]).to_string());
@@ -112,14 +145,48 @@ pub fn check_parse(rng: &mut Rng, acc: &mut Acc) {
     let case = json!({"kind": "go_line", "property": "C09", "line": text});
     if acc.distinct.insert(hash64(&format!("parse {}", text))) {
         acc.feature("go_line_parsed");
+        if mtg_written.map_or(false, |m| m > u32::MAX as f64) {
+            acc.feature("go_line_movestogo_beyond_32_bits");
+        }
     }
     match par::catch(|| crate::uci::verif_parse_go_command(&toks)) {
         Ok(gt) => {
             let get = |n: &str| fields.iter().find(|(k, _)| *k == n).map(|(_, v)| *v);
-            let want = (get("wtime").unwrap_or(0), get("btime").unwrap_or(0), get("winc").unwrap_or(0), get("binc").unwrap_or(0), get("movestogo").map(|v| v as u32));
-            let got = (gt.wtime, gt.btime, gt.winc, gt.binc, gt.movestogo);
+            let want = (get("wtime").unwrap_or(0), get("btime").unwrap_or(0), get("winc").unwrap_or(0), get("binc").unwrap_or(0));
+            let got = (gt.wtime, gt.btime, gt.winc, gt.binc);
             if got != want {
-                acc.violation(format!("C09|parse|{}", text), format!("'{}' parsed as {:?}, written {:?}", text, got, want), case);
+                acc.violation(format!("C09|parse|{}", text), format!("'{}' parsed as {:?}, written {:?}", text, got, want), case.clone());
+            }
+            if mtg_written.is_none() || mtg_exact.is_some() {
+                if gt.movestogo != mtg_exact {
+                    acc.violation(format!("C09|parse|{}", text), format!("'{}': movestogo parsed as {:?}, written {:?}", text, gt.movestogo, mtg_exact), case.clone());
+                }
+            }
+            // the plan must respect the share of the numbers written, whatever the record holds
+            for white in [true, false] {
+                let clock = if white { want.0 } else { want.1 };
+                // A count beyond 32 bits cannot be held by the engine's record (Option<u32>); it
+                // saturates. For clocks up to 10^9 ms (11 days) any saturation at >= 2^32-1 plans
+                // 0 ms like the exact quotient does, so the written numbers can be used as they
+                // are; an astronomical clock *and* an astronomical count together are not judged.
+                if clock > 100 && mtg_written.map_or(false, |m| m > u32::MAX as f64) && clock > 1_000_000_000 {
+                    acc.count("astronomical_clock_and_movestogo_not_judged", 1);
+                    continue;
+                }
+                if clock > 100 {
+                    if let Ok(sl) = slice(&gt, white) {
+                        let m = mtg_written.unwrap_or(30.0).max(1.0);
+                        let bound = 0.8 * ((clock - 100) as f64) / m;
+                        let allowed = bound + 0.5 + bound.abs() * 1e-9;
+                        if (sl as f64) > allowed {
+                            acc.violation(
+                                format!("C09|line-exceeds-share|{}", text),
+                                format!("'{}' ({} to move): plan {} ms exceeds 80% of (clock - 100) / movestogo = {:.3} computed from the numbers written (record: movestogo {:?})", text, if white { "white" } else { "black" }, sl, bound, gt.movestogo),
+                                case.clone(),
+                            );
+                        }
+                    }
+                }
             }
         }
         Err(e) => {
